@@ -392,7 +392,7 @@ def _two_digit(ctx, rep, eng):
 def _field_names(ctx, rep, eng):
     fields = set(F5) | {"DOW", "POD"}
     by_site = {}
-    for site, where, cls, attrs, cal, root in eng.interp.construct_log:
+    for site, where, cls, attrs, cal, root in eng.construct_log:
         if "year" not in attrs:
             continue
         e = by_site.setdefault(site, [where, None, 0])
